@@ -15,7 +15,7 @@ ROOT = os.path.dirname(os.path.dirname(os.path.abspath(__file__)))
 ENV = dict(os.environ, GOFLAGS="-mod=mod", GOPROXY="off", GOSUMDB="off", GOTOOLCHAIN="local")
 
 
-def sh(cmd, cwd=None, env=None, timeout=1800):
+def sh(cmd, cwd=None, env=None, timeout=5400):
     p = subprocess.run(cmd, cwd=cwd, env=ENV if env is None else env, stdout=subprocess.PIPE, stderr=subprocess.STDOUT, universal_newlines=True, timeout=timeout)
     return p.returncode, p.stdout
 
